@@ -6,7 +6,8 @@
    ("32/0/2147483648" gives -2^63) and nothing is claimed. The tie model <-> code is the differential run (corr), not a theorem. *)
 From Coq Require Import ZArith String List Lia Bool.
 From Coq Require Floats.
-From SID Require Import Base Str Ids ZoomCore AltKeyCore ChangeZoom BitAlt Wire Quadkey QuadkeyConv DC11.
+From SID Require Import Base Str Ids ZoomCore AltKeyCore ChangeZoom BitAlt Wire Quadkey QuadkeyConv QuadkeyObj DC11.
+From SIDGen Require Generated.
 From SID Require F64.
 Import ListNotations.
 Open Scope Z_scope.
@@ -259,6 +260,91 @@ Theorem C11_spatial_id_list_checker_sound : forall items z o obs, Forall qvalid 
 Proof. exact check_q2s_sound. Qed.
 Print Assumptions C11_spatial_id_list_checker_sound.
 
+(* ---- object wiring (theories/QuadkeyObj.v): the quadkey-side objects of common/object/id_object.go as records; run-time entry `Params` ---- *)
+(* FromExtendedSpatialIDToQuadkeyAndVerticalID: every setter replaces exactly its own field by its argument and leaves the others alone *)
+Theorem C11_vertical_object_setters : forall (I : Type) (o : vobj I) z l f,
+  v_set_qz z o = mkvobj z (v_inner o) (v_vz o) (v_max o) (v_min o) /\
+  v_set_inner l o = mkvobj (v_qz o) l (v_vz o) (v_max o) (v_min o) /\
+  v_set_vz z o = mkvobj (v_qz o) (v_inner o) z (v_max o) (v_min o) /\
+  v_set_max f o = mkvobj (v_qz o) (v_inner o) (v_vz o) f (v_min o) /\
+  v_set_min f o = mkvobj (v_qz o) (v_inner o) (v_vz o) (v_max o) f.
+Proof. exact @vobj_laws. Qed.
+Print Assumptions C11_vertical_object_setters.
+(* each getter after its setter returns the argument; the two heights never influence each other (no clamping) *)
+Theorem C11_vertical_object_get_set : forall (I : Type) (o : vobj I) z l f,
+  v_qz (v_set_qz z o) = z /\ v_inner (v_set_inner l o) = l /\ v_vz (v_set_vz z o) = z /\ v_max (v_set_max f o) = f /\ v_min (v_set_min f o) = f /\
+  v_min (v_set_max f o) = v_min o /\ v_max (v_set_min f o) = v_max o.
+Proof. exact @vobj_get_set. Qed.
+Print Assumptions C11_vertical_object_get_set.
+Theorem C11_altitudekey_object_setters : forall (I : Type) (o : aobj I) z l,
+  a_set_qz z o = mkaobj z (a_inner o) (a_az o) (a_exp o) (a_off o) /\
+  a_set_inner l o = mkaobj (a_qz o) l (a_az o) (a_exp o) (a_off o) /\
+  a_set_az z o = mkaobj (a_qz o) (a_inner o) z (a_exp o) (a_off o) /\
+  a_set_exp z o = mkaobj (a_qz o) (a_inner o) (a_az o) z (a_off o) /\
+  a_set_off z o = mkaobj (a_qz o) (a_inner o) (a_az o) (a_exp o) z.
+Proof. exact @aobj_laws. Qed.
+Print Assumptions C11_altitudekey_object_setters.
+Theorem C11_key_object_setters : forall (o : qobj) z f,
+  q_set_qz z o = mkqobj z (q_key o) (q_vz o) (q_vi o) (q_max o) (q_min o) /\
+  q_set_key z o = mkqobj (q_qz o) z (q_vz o) (q_vi o) (q_max o) (q_min o) /\
+  q_set_vz z o = mkqobj (q_qz o) (q_key o) z (q_vi o) (q_max o) (q_min o) /\
+  q_set_vi z o = mkqobj (q_qz o) (q_key o) (q_vz o) z (q_max o) (q_min o) /\
+  q_set_max f o = mkqobj (q_qz o) (q_key o) (q_vz o) (q_vi o) f (q_min o) /\
+  q_set_min f o = mkqobj (q_qz o) (q_key o) (q_vz o) (q_vi o) (q_max o) f.
+Proof. exact qobj_laws. Qed.
+Print Assumptions C11_key_object_setters.
+(* the constructors (= the setters in the order the code calls them, on the zero object) read back exactly their arguments *)
+Theorem C11_constructors_read_back : forall (I : Type) (nil_inner : I),
+  (forall qz l vz mx mn, new_v nil_inner qz l vz mx mn = mkvobj qz l vz mx mn) /\
+  (forall qz l az e off, new_a nil_inner qz l az e off = mkaobj qz l az e off) /\
+  (forall qz key vz vi mx mn, new_q qz key vz vi mx mn = mkqobj qz key vz vi mx mn).
+Proof. exact (fun I n => conj (new_v_reads_back n) (conj (new_a_reads_back n) new_q_reads_back)). Qed.
+Print Assumptions C11_constructors_read_back.
+(* SetInnerIDList keeps the caller's slice itself: a later write of the caller is what InnerIDList() shows; other slices are unaffected *)
+Theorem C11_stored_slice_is_shared : forall s sid idx p, (sid < List.length s)%nat ->
+  deref (write s sid idx p) (Some sid) = upd_nth idx p (deref s (Some sid)).
+Proof. exact stored_slice_is_shared. Qed.
+Print Assumptions C11_stored_slice_is_shared.
+Theorem C11_other_slices_untouched : forall s sid sid' idx p, sid <> sid' -> deref (write s sid idx p) (Some sid') = deref s (Some sid').
+Proof. exact other_slices_untouched. Qed.
+Print Assumptions C11_other_slices_untouched.
+(* tie to the conversions: every object the ID -> pair conversions return is the constructor applied to the REQUEST's output zooms and
+   parameters (any vertical function, any input), so its getters report them unchanged *)
+Theorem C11_returned_objects_are_constructor_results : forall oh ov (mx mn : PrimFloat.float) vert ids gs,
+  conv oh ov (mx, mn) vert ids = Ok gs ->
+  forall g, In g gs -> g = group_of_v (new_v [] oh (g_pairs g) ov mx mn) /\ g_pairs g <> [].
+Proof. exact groups_are_constructed_v. Qed.
+Print Assumptions C11_returned_objects_are_constructor_results.
+Theorem C11_returned_altitudekey_objects_are_constructor_results : forall oq oa E O ids gs, e2qa ids oq oa E O = Ok gs ->
+  forall g, In g gs -> g = group_of_a (new_a [] oq (g_pairs g) oa E O) /\ g_pairs g <> [].
+Proof. exact groups_are_constructed_a. Qed.
+Print Assumptions C11_returned_altitudekey_objects_are_constructor_results.
+
+(* ---- statements on the regenerated constants (an edit of the bounds of transform.quadkeyCheckZoom or of consts.InnerID*Index in /repo breaks
+   GenEqCheck.gen_QuadkeyZoom_eq / GenEqConst.gen_InnerID_eq, on which these depend) ---- *)
+Theorem C11_zoom_window_is_the_generated_bounds : forall h v,
+  qcheck h v = (Generated.QuadkeyZoom_hZoom_min <=? h) && (h <=? Generated.QuadkeyZoom_hZoom_max) &&
+               (Generated.QuadkeyZoom_vZoom_min <=? v) && (v <=? Generated.QuadkeyZoom_vZoom_max).
+Proof. exact qcheck_generated. Qed.
+Print Assumptions C11_zoom_window_is_the_generated_bounds.
+Theorem C11_decode_encode_on_the_generated_window : forall h x y,
+  Generated.QuadkeyZoom_hZoom_min <= h <= Generated.QuadkeyZoom_hZoom_max -> 0 <= x < 2 ^ h -> 0 <= y < 2 ^ h -> decode (encode h x y) h = (x, y).
+Proof. exact decode_encode_generated. Qed.
+Print Assumptions C11_decode_encode_on_the_generated_window.
+Theorem C11_pair_components_by_the_generated_indices : forall p,
+  inner_at p Generated.InnerIDQuadkeyIndex = fst p /\ inner_at p Generated.InnerIDAltitudekeyIndex = snd p.
+Proof. exact inner_at_generated. Qed.
+Print Assumptions C11_pair_components_by_the_generated_indices.
+Theorem C11_altitudekey_pairs_by_the_generated_indices : forall es oq oa E O, qcheck oq oa = true -> Forall valid es ->
+  (forall i, In i es -> is_ok (z2key (ef i) (ev i) oa E O) = true) ->
+  exists gs, e2qa (map print_eid es) oq oa E O = Ok gs /\
+    forall p, In p (List.concat (map g_pairs gs)) ->
+      exists i x' y' mn mx, In i es /\ rel1 (eh i) (ex i) oq x' /\ rel1 (eh i) (ey i) oq y' /\
+        inner_at p Generated.InnerIDQuadkeyIndex = interleave oq x' y' /\
+        z2key (ef i) (ev i) oa E O = Ok (mn, mx) /\ mn <= inner_at p Generated.InnerIDAltitudekeyIndex <= mx.
+Proof. exact e2qa_spec_indexed. Qed.
+Print Assumptions C11_altitudekey_pairs_by_the_generated_indices.
+
 (* ---- non-vacuity ---- *)
 (* the tile pinned by the unit tests, and a tile whose key has leading zero digits (x = 1, y = 0 at zoom 31: key 1, printed "1") *)
 Example C11_nonvacuous_keys :
@@ -288,6 +374,20 @@ Proof. split; [repeat constructor; unfold valid; cbn; lia|]. vm_compute. reflexi
 (* the height-range instance of the generic group theorem has a successful call to speak about *)
 Example C11_nonvacuous_height_range :
   is_ok (conv 6 3 (F64.of_Z 256, F64.of_Z (-256)) (fun v f => Ok (vid_to_bit v f 3 (F64.of_Z 256) (F64.of_Z (-256)))) ["6/24/53/26/51"; "6/24/53/26/51"]%string) = true.
+Proof. vm_compute. reflexivity. Qed.
+
+(* object sequences: inverted heights are stored as given (no clamping); the stored slice is shared with the caller and with the slice the
+   getter returned; a setter of one object does not show on the other *)
+Example C11_nonvacuous_objects :
+  run_steps None None [[(1, 2); (3, 4)]]
+    [(false, SNewV 6 (Some 0%nat) 26 (F64.of_Z 1) (F64.of_Z 5)); (true, SNewA 7 None 3 25 8);
+     (false, SCallerWrite 0 1 (9, 9)); (false, SGetterWrite 0 (5, 5)); (false, SSetF "SetMaxHeight" (F64.of_Z (-2)))] =
+  Some ([(([6; 26], [F64.of_Z 1; F64.of_Z 5], [(1, 2); (3, 4)]), ([], [], []));
+         (([6; 26], [F64.of_Z 1; F64.of_Z 5], [(1, 2); (3, 4)]), ([7; 3; 25; 8], [], []));
+         (([6; 26], [F64.of_Z 1; F64.of_Z 5], [(1, 2); (9, 9)]), ([7; 3; 25; 8], [], []));
+         (([6; 26], [F64.of_Z 1; F64.of_Z 5], [(5, 5); (9, 9)]), ([7; 3; 25; 8], [], []));
+         (([6; 26], [F64.of_Z (-2); F64.of_Z 5], [(5, 5); (9, 9)]), ([7; 3; 25; 8], [], []))],
+        [[(5, 5); (9, 9)]]).
 Proof. vm_compute. reflexivity. Qed.
 
 (* ---- tie to the source by regeneration (DESIGN.md 4.2): transform.quadkeyCheckZoom translated from /repo's current source is the zoom window 1..31 x 0..35 ---- *)
